@@ -126,7 +126,12 @@ def _body(shard, *choices):
 
             def append(self, key):
                 list.append(self, key)
-                self.at.setdefault(key, len(self.sinklist))
+                if kind == "union":
+                    # independent producers: count only the deliveries that stem from the same source
+                    mine = [v for v in self.sinklist if (v >= 30) == (key[0][0] == 1)]
+                    self.at.setdefault(key, len(mine))
+                else:
+                    self.at.setdefault(key, len(self.sinklist))
         cbs, refs = CbLog(got), {}
         items = [[10 + i for i in range(n)], [20 + i for i in range(n)]]
         pos = [0, 0]
